@@ -33,6 +33,9 @@ def run(rep, F, ctx):
     rep.analysed['public_helper_panic_site_inventory'] = inv
     rep.note('inventory of potential panic sites in public path/string/iterator helpers (evidence only, not a verdict): %d sites, %d without an idiom' % (
         len(inv), sum(1 for x in inv if 'not discharged' in x)))
+    import siteguard as _sg
+    _t = engine.load_table('site_guards.json')
+    _sg.site_guard(rep, F, A.cg, _t, _t['_groups']['C12'])
     return engine.finish(
         rep, 'other', EXPLANATION,
         assumptions=['std APIs panic only as documented (table MAY_PANIC in rules/panics.py); allocation failure / capacity overflow aborts are out of scope',
